@@ -530,6 +530,37 @@ func r12Parents(c *core.Ctx, p *load.Program, sh *tarShape) {
 			bad = append(bad, p.Pos(at.Pos()))
 		}
 	})
+	// the parent path is created recursively: the function the read loop hands in for it calls the MkdirAll helper
+	// (which walks every missing ancestor on any destination) and not merely Mkdir or an optional capability
+	recursive, sawPrep := false, false
+	for _, a := range sh.readErr.AnonFuncs {
+		sig := a.Signature
+		if sig.Params().Len() != 2 || !isStr(sig.Params().At(0).Type()) || sig.Results().Len() != 1 || !ssax.IsErrorType(sig.Results().At(0).Type()) {
+			continue
+		}
+		sawPrep = true
+		ssax.Instrs(a, func(ins ssa.Instruction) {
+			cl, ok := ins.(*ssa.Call)
+			if !ok || !ssax.CalleeIs(cl, mod, "MkdirAll") {
+				return
+			}
+			underAssert := false
+			for _, f := range ssax.FactsAtInstr(cl) {
+				if ex, ok := f.Cond.(*ssa.Extract); ok {
+					if _, isTA := ex.Tuple.(*ssa.TypeAssert); isTA {
+						underAssert = true
+					}
+				}
+			}
+			if !underAssert {
+				recursive = true
+			}
+		})
+	}
+	if sawPrep {
+		c.Check(recursive, "R12.4", fname(sh.readErr)+"|parents-created-recursively", p.Pos(sh.readErr.Pos()), "the parent-preparing function calls the recursive MkdirAll helper unconditionally",
+			fmt.Sprintf("%s: the function that prepares an entry's parent directory no longer calls hackpadfs.MkdirAll unconditionally: on a destination without MkdirAllFS an entry two or more levels below the deepest existing directory (a/b/c/deep.txt with no entries for a, a/b) cannot be created and the unpack of a well-formed archive fails", fname(sh.readErr)))
+	}
 	c.Check(len(bad) == 0 && n >= 2, "R12.4", key, p.Pos(parentCall.Pos()), fmt.Sprintf("%d entry-creating continuations all follow the success edge of creating the parent path", n),
 		fmt.Sprintf("%s: the entry is created at %v without being on the success edge of creating its parent directories", fname(fn), bad))
 }
